@@ -3,7 +3,7 @@ from __future__ import annotations
 
 from .. import decoders, normal, render, sym
 from ..decoders import classify, fmt_atoms
-from ..model import Repo
+from ..model import AnalysisError, Repo
 from ..report import Run
 from ..sym import T, const
 
@@ -85,9 +85,8 @@ def analyse(D: decoders.Decoders, e, run: Run, facts_out=None) -> int:
     mod = e.module.name
     scope = e.func_name
     if d.segs is None or d.cls is None:
-        run.ob("R3", mod, scope, e.key, False, f"decoder result/rendering could not be derived: {d.problems[:2]}",
-               line=e.func.lineno)
-        return 0
+        # not a verdict about the property: the analysis cannot see what this decoder renders
+        raise AnalysisError(f"{e.key} ({scope}): decoder result / rendering could not be derived: {d.problems[:2]}")
     # R3 arity
     bad_fields = [k for k, _ in d.ret.a[1] if k.startswith("<")]
     missing = [k for k, v in d.ret.a[1] if v.op == "unknown" and str(v.a[0]).startswith("missing-field")]
